@@ -22,3 +22,14 @@ package hosts
 //@     invariant r != nil && fresh(r) && hReplyTo(m, r) && len(r.Extra) == 0 && r.Rcode == 0 && 0 <= it0
 //@   loop 1:
 //@     invariant r != nil && fresh(r) && hReplyTo(m, r) && len(r.Extra) == 0 && r.Rcode == 0 && 0 <= it1
+
+// ParseIPs (C12): a hosts line is "pattern ip..."; the pattern is the first field EXACTLY as
+// written (rule kinds normalise it themselves; a regexp must reach the matcher untouched); every
+// further field must be an address.
+//@ func ParseIPs [C12]
+//@   modifies *
+//@   ensures result_2 == nil ==> result_0 == field(s, 0) && nfields(s) >= 1 && result_1 != nil
+//@   ensures nfields(s) == 0 ==> result_2 != nil
+//@   loop 0:
+//@     invariant v != nil && pattern == field(s, 0) && 0 <= it0 && len(f) == nfields(s) && nfields(s) >= 1
+//@     each iter_calls(ParseAddr) == 1 && iter_ret(ParseAddr, 0, 1) == nil
